@@ -38,6 +38,8 @@ def addrStr (n : Nat) : String :=
 
 def keyCreds (k : String) : Creds :=
   if k == "3" then .long (asciiBytes "user") (asciiBytes "realm") (asciiBytes "pass:word")
+  else if k == "1" then .short (asciiBytes "pšssword")   -- UTF-8 bytes (asciiBytes = toUTF8)
+  else if k == "2" then .short (asciiBytes "password")
   else .short (asciiBytes ("key" ++ k))
 
 def hexNat (s : String) : Option Nat :=
